@@ -621,19 +621,9 @@ func runP5(p *an.Prog, r *an.Result) {
 						r.OK(name, construct, call.Pos(), "dominated by map.Type().Key() == key.Type()")
 						return
 					}
-					// m.Type().Key().Kind() == reflect.String and k = reflect.ValueOf(string)
-					if c := an.CallOf(pair[0]); c != nil && an.CallName(c) == "(reflect.Type).Kind" && isKeyTypeOf(c.Value, m) {
-						if kv, ok := an.ConstInt(pair[1]); ok && kv == int64(24) { // reflect.String
-							if kc := an.CallOf(k); kc != nil && an.CallName(kc) == "reflect.ValueOf" {
-								if bt, ok := an.Strip(kc.Args[0]).Type().Underlying().(*types.Basic); ok && bt.Kind() == types.String {
-									if _, named := an.Strip(kc.Args[0]).Type().(*types.Named); !named {
-										r.OK(name, construct, call.Pos(), "dominated by a test that the map's key kind is String, and the key is made from a string; for a named string key type reflect converts... no: assignability requires the identical type; accepted only for the unnamed string")
-										return
-									}
-								}
-							}
-						}
-					}
+					// (a test that the key *kind* is String is not enough for a key made from a Go string: MapIndex
+					// wants a value assignable to the key type, and a named string type is another type - this
+					// clause used to accept it, and sort: "k" on a map[Name]any panicked; section 6)
 				}
 			}
 			// (d) the key is the validated result of a helper (key, ok), used under ok: every successful
@@ -684,7 +674,7 @@ func runP5(p *an.Prog, r *an.Result) {
 			r.Bad(name, construct, call.Pos(), fmt.Sprintf("%s calls MapIndex with a key whose type is not established assignable to the map's key type (no key-type comparison, no Convert to the key type, not one of the map's own keys): reflect panics for a map with another key type", an.FuncName(fn)))
 		})
 	}
-	r.Floor("MapIndex sites", 5)
+	r.Floor("MapIndex sites", 2)
 }
 
 // ---------------------------------------------------------------------------
@@ -2623,6 +2613,27 @@ func runP14(p *an.Prog, r *an.Result) {
 		}
 		// (a) a test of the value's kind on every path (the arms of a case with several kinds are several tests)
 		kindGuard := func(cond ssa.Value, taken bool) string {
+			// a predicate over kinds of the module, read as a table: true only for kinds that can be nil
+			if pc := an.CallOf(cond); pc != nil && taken && len(pc.Args) == 1 && isPkgType(pc.Args[0].Type(), "reflect", "Kind") {
+				if callee := pc.StaticCallee(); callee != nil && p.InModule(callee) {
+					if kc := an.CallOf(pc.Args[0]); kc != nil && an.CallName(kc) == "(reflect.Value).Kind" && len(kc.Args) == 1 && sameRef(kc.Args[0], rv) {
+						if t := kindTableOf(p, callee, 0); t.ok {
+							all, some := true, false
+							for pr, v := range t.val {
+								if v == 1 {
+									some = true
+									if !nilableKinds[pr[0]] {
+										all = false
+									}
+								}
+							}
+							if all && some {
+								return "under a predicate that is true only for kinds that can be nil"
+							}
+						}
+					}
+				}
+			}
 			b, ok := cond.(*ssa.BinOp)
 			if !ok || !(b.Op == token.EQL && taken || b.Op == token.NEQ && !taken) {
 				return ""
